@@ -127,7 +127,7 @@ type yieldPlan struct {
 
 // yieldSites are the hook-H7 sites of the block manager.
 var yieldSites = []string{"headers.beforeTipUpdate", "reorg.afterRollback", "rollback.beforeBlock",
-	"cfheaders.afterStoreWrite", "cfheaders.beforeEvent", "ntfns.backlogBuilt"}
+	"cfheaders.afterStoreWrite", "cfheaders.beforeEvent", "ntfns.backlogBuilt", "cfheaders.beforeStoreWrite"}
 
 // armYield plans one park: the nth time from now that a client goroutine
 // reaches site it sleeps there for dur of simulated time.
